@@ -84,26 +84,38 @@ def takeRegular : List Nat → List Nat × List Nat
 
 /-! ## §7.3.5 names -/
 
+def consOut (x : Nat) (t : Option (List Nat × List Nat)) : Option (List Nat × List Nat) :=
+  match t with
+  | some (s, rest) => some (x :: s, rest)
+  | none => none
+
+/-- reader state inside a name: plain, after `#`, after `#` and one hexadecimal digit -/
+inductive NameSt where
+  | plain
+  | hash
+  | hash1 (hi : Nat)
+  deriving Repr, DecidableEq
+
 /-- After the solidus: regular characters; `#` introduces exactly two hexadecimal digits
     (anything else after `#` is an error). -/
-def readName : List Nat → Option (List Nat × List Nat)
-  | [] => some ([], [])
-  | b :: r =>
+def readNameSt : NameSt → List Nat → Option (List Nat × List Nat)
+  | .plain, [] => some ([], [])
+  | .hash, [] => none
+  | .hash1 _, [] => none
+  | .plain, b :: r =>
     if !isRegular b then some ([], b :: r)
-    else if b == 35 then
-      match r with
-      | h1 :: h2 :: r' =>
-        match hexVal h1, hexVal h2 with
-        | some a, some c =>
-          match readName r' with
-          | some (n, rest) => some ((a * 16 + c) :: n, rest)
-          | none => none
-        | _, _ => none
-      | _ => none
-    else
-      match readName r with
-      | some (n, rest) => some (b :: n, rest)
-      | none => none
+    else if b == 35 then readNameSt .hash r
+    else consOut b (readNameSt .plain r)
+  | .hash, b :: r =>
+    match hexVal b with
+    | some a => readNameSt (.hash1 a) r
+    | none => none
+  | .hash1 a, b :: r =>
+    match hexVal b with
+    | some c => consOut (a * 16 + c) (readNameSt .plain r)
+    | none => none
+
+def readName (inp : List Nat) : Option (List Nat × List Nat) := readNameSt .plain inp
 
 /-! ## §7.3.4.2 literal strings -/
 
@@ -123,11 +135,6 @@ inductive LitSt where
   /-- `\dd` read so far, value `v` -/
   | oct2 (v : Nat)
   deriving Repr, DecidableEq
-
-def consOut (x : Nat) (t : Option (List Nat × List Nat)) : Option (List Nat × List Nat) :=
-  match t with
-  | some (s, rest) => some (x :: s, rest)
-  | none => none
 
 /-- After the opening parenthesis; `d` = number of unescaped, still open inner parentheses.
     Table 3 escapes; `\ddd` with one to three octal digits, high-order overflow ignored;
@@ -199,9 +206,9 @@ def allDigits : List Nat → Bool
   | [] => true
   | b :: r => isDigit b && allDigits r
 
-def digitsVal : Nat → List Nat → Nat
-  | acc, [] => acc
-  | acc, b :: r => digitsVal (acc * 10 + (b - 48)) r
+def digitsVal : List Nat → Nat → Nat
+  | [], acc => acc
+  | b :: r, acc => digitsVal r (acc * 10 + (b - 48))
 
 def stripSign : List Nat → Bool × List Nat
   | 43 :: r => (false, r)
@@ -215,7 +222,7 @@ def isIntTok (t : List Nat) : Bool :=
 
 def intVal (t : List Nat) : Int :=
   let (neg, u) := stripSign t
-  if neg then - (Int.ofNat (digitsVal 0 u)) else Int.ofNat (digitsVal 0 u)
+  if neg then - (Int.ofNat (digitsVal u 0)) else Int.ofNat (digitsVal u 0)
 
 /-- split at the first period -/
 def splitDot : List Nat → List Nat × Option (List Nat)
@@ -246,7 +253,7 @@ def refAhead (rest : List Nat) : Option (Nat × List Nat) :=
   let (t2, r2) := takeRegular (skip false rest)
   if !t2.isEmpty && allDigits t2 then
     let (t3, r3) := takeRegular (skip false r2)
-    if t3 == [82] then some (digitsVal 0 t2, r3) else none
+    if t3 == [82] then some (digitsVal t2 0, r3) else none
   else none
 
 mutual
@@ -287,7 +294,7 @@ def readObj : Nat → List Nat → Option (Obj × List Nat)
         else if isIntTok t then
           if allDigits t then
             match refAhead rest with
-            | some (g, rest') => some (.ref (digitsVal 0 t) g, rest')
+            | some (g, rest') => some (.ref (digitsVal t 0) g, rest')
             | none => some (.int (intVal t), rest)
           else some (.int (intVal t), rest)
         else if isRealTok t then some (.real t, rest)
@@ -335,8 +342,9 @@ def readDict : Nat → List Nat → Option (List (List Nat × Obj) × List Nat)
       else none
 end
 
-/-- Read one object; fuel is the input length (every recursive call consumes input). -/
-def read (inp : List Nat) : Option (Obj × List Nat) := readObj (inp.length + 2) inp
+/-- Read one object; the fuel exceeds what any input can use (each unit of fuel is spent on a call
+    that consumes at least one input byte or ends). -/
+def read (inp : List Nat) : Option (Obj × List Nat) := readObj (2 * inp.length + 2) inp
 
 /-! ## Content streams (§7.8.2): operands are objects, operators are keywords -/
 
